@@ -233,6 +233,37 @@ pub fn c16_all_chars(shard: usize, shards: usize, st: &mut Stats) -> Result<(), 
     Ok(())
 }
 
+
+/// Strings whose length sits at the wrap-around points of narrow integer types (a parser that keeps
+/// the length in a u8 or u16 sees 257 characters as 1): valid tokens followed by filler.
+pub fn c16_boundary_lengths(st: &mut Stats) -> Result<(), (Fail, String)> {
+    let prefixes = ["", "p", "e", "R", "a1", "h8", "a1n", "h8w", "d4s"];
+    let fillers = ['x', ' ', 'n', '1', 'a', '\u{e9}'];
+    let mut lens: Vec<usize> = vec![];
+    for base in [256usize, 512, 65536, 65536 + 256] {
+        for d in 0..6 {
+            lens.push(base - 2 + d);
+        }
+    }
+    for &n in lens.iter() {
+        for p in prefixes.iter() {
+            let pc = p.chars().count();
+            if n < pc {
+                continue;
+            }
+            for f in fillers.iter() {
+                let mut sx = String::with_capacity(n * 2);
+                sx.push_str(p);
+                for _ in 0..(n - pc) {
+                    sx.push(*f);
+                }
+                c16_string(&sx, st).map_err(|e| (e, format!("{}<{} x {:?}>", p, n - pc, f)))?;
+            }
+        }
+    }
+    Ok(())
+}
+
 pub fn c16_long_string() -> impl Strategy<Value = String> {
     let from_alpha = prop::collection::vec(0usize..ALPHABET.len(), 0..12).prop_map(|v| v.into_iter().map(|i| ALPHABET[i]).collect::<String>());
     let near = ("[a-i`A-H][0-9][neswNESWx]", any::<u8>(), any::<char>()).prop_map(|(s, pos, c)| {
@@ -339,8 +370,20 @@ fn mutate(text: &str, muts: &[(u8, u16, u16)]) -> String {
                 }
             }
             9 => {
-                // truncate
-                cs.truncate(at);
+                if val % 3 == 0 {
+                    // many empty rows (a row index kept in a narrow integer wraps around after 32 / 256 rows)
+                    let k = [24usize, 25, 31, 32, 33, 40, 255, 256, 257][(val as usize / 3) % 9];
+                    let row = "0|                 |\n";
+                    let lines: Vec<usize> = cs.iter().enumerate().filter(|(_, c)| **c == '\n').map(|(i, _)| i + 1).collect();
+                    let ins = if lines.is_empty() { n } else { lines[(pos as usize * lines.len()) >> 16] };
+                    let block: Vec<char> = row.repeat(k).chars().collect();
+                    let tail = cs.split_off(ins.min(cs.len()));
+                    cs.extend(block);
+                    cs.extend(tail);
+                } else {
+                    // truncate
+                    cs.truncate(at);
+                }
             }
             10 => {
                 // drop the header line
@@ -459,7 +502,21 @@ pub fn golden_c15_texts() -> Vec<String> {
     // the inputs of the defects found in the design phase (regression tier) and the repo's own examples
     let base = m::Board::empty().diagram(2, true);
     let ninth_row = base.replace(" +-----------------+\n   a", "0| R               |\n +-----------------+\n   a");
-    vec![
+    let mut many_rows = vec![];
+    for k in [23usize, 24, 25, 31, 32, 33, 248, 255, 256, 257] {
+        let mut t = String::from("2g\n +-----------------+\n");
+        for r in 0..8 {
+            t.push_str(&format!("{}|                 |\n", 8 - r));
+        }
+        t.push_str(&"0|                 |\n".repeat(k));
+        t.push_str("0| E R             |\n0| r               |\n +-----------------+\n");
+        many_rows.push(t);
+        let mut t2 = String::from("2g\n +-----------------+\n8| r e             |\n");
+        t2.push_str(&"0|                 |\n".repeat(k));
+        t2.push_str("0| E R             |\n +-----------------+\n");
+        many_rows.push(t2);
+    }
+    let mut v = vec![
         base.replacen("2g", "99999999999999999999999999g", 1),
         base.replacen("2g", "\u{663}g", 1),
         ninth_row,
@@ -467,7 +524,9 @@ pub fn golden_c15_texts() -> Vec<String> {
         "|".repeat(40),
         String::new(),
         "2g\n +-----------------+\n8| h c d m e d c h |\n7| r r r r r r r r |\n6|     x     x     |\n5|                 |\n4|                 |\n3|     x     x     |\n2| R R R R R R R R |\n1| H C D M E D C H |\n +-----------------+\n   a b c d e f g h".to_string(),
-    ]
+    ];
+    v.extend(many_rows);
+    v
 }
 
 pub fn golden_c16_strings() -> Vec<&'static str> {
